@@ -323,6 +323,17 @@ Proof.
 Qed.
 Print Assumptions c16_nothing_else_removed.
 
+(* "never garbage-collected while it exists", as a one-step invariant over ALL histories: in the
+   state reached by any history, a completed upload that has at least one link row is still a
+   record, with its bytes, after ANY next operation (GC run with any bound and limit, upload,
+   failed upload, publish, avatar change, deletion) *)
+Theorem c16_linked_never_removed : forall h o f t,
+  let s := run h in
+  In (f, t) (links s) -> is_done f (files s) = true ->
+  In f (file_ids (step s o)) /\ In f (disk (step s o)).
+Proof. exact linked_never_removed. Qed.
+Print Assumptions c16_linked_never_removed.
+
 (* deleting messages / a topic / a user removes exactly their link rows (so that uploads whose
    last link this was become collectable, previous theorem) and touches no record and no bytes *)
 Theorem c16_deletion_unlinks : forall s,
